@@ -134,8 +134,10 @@ def run(ctx):
             v = w.val
             tcomp = v[2][0] if v[0] == "call" and v[2] else (v[3][2] if v[0] == "agg" and len(v[3]) == 3 else None)
             kind = is_clock_like(m, tcomp, stamp) if tcomp else None
+            if stamp is not None and kind == "clock":
+                kind = None  # a raw clock value can precede the stamps of orders already queued: not "behind every order at that price"
             ctx.check(kind is not None, "replace", "fresh-key-time|" + g.short(), w.loc(), "re-queued under a key whose time is the %s now" % ("queue stamp" if kind == "stamp" else "clock"),
-                      "re-queued under key time %s (stale)" % (render(tcomp) if tcomp else "?"))
+                      "re-queued under key time %s (stale, or not ordered after the queue stamps already handed out)" % (render(tcomp) if tcomp else "?"))
             pcomp = v[2][1] if v[0] == "call" and len(v[2]) > 1 else None
             ctx.check(pcomp is not None and pcomp[0] == "param" and pcomp[2] == "new_price", "replace", "fresh-key-price|" + g.short(), w.loc(),
                       "re-queued under the key of the new price", "re-queued under key price %s" % (render(pcomp) if pcomp else "?"))
